@@ -726,3 +726,5 @@ def run(ctx):
     ctx.do(_c03p.r3_5)  # a pack renumbers the messages: the flag table is re-read with the keys
     from . import c13 as _c13g
     ctx.do(_c13g.r13_9)  # a delivered message does not inherit the flags of the key it re-uses
+    from . import c17 as _c17f
+    ctx.do(_c17f.r17_15)  # RENAME INBOX carries the flags with the messages
